@@ -621,6 +621,30 @@ func two$u(s string) (string, string) { return s[:1], s[1:] }
 a$u, b$u := two$u($in)
 $out := a$u + b$u
 
+### tuple3 calls
+@decls
+func three$u(s string) (int, bool, string) { return 1, true, s }
+@body
+_, _, $out := three$u($in)
+
+### tuple4mid calls
+@decls
+func four$u(s string) (string, int, string, error) {
+	if len(s) == 0 {
+		return "", 0, "", nil
+	}
+	return "k", 1, s, nil
+}
+@body
+_, _, $out, _ := four$u($in)
+
+### tuple3wrap calls
+@decls
+func three$u(s string) (int, bool, string) { return 1, true, s }
+func wrap$u(s string) (int, bool, string)  { return three$u(s) }
+@body
+_, _, $out := wrap$u($in)
+
 ### tupleerr calls
 @decls
 func te$u(s string) (string, error) { return s, nil }
